@@ -16,11 +16,13 @@ from zope.interface.interface import InterfaceClass
 UNKNOWN = 999
 
 
-def run_case(case):
+def run_case(case, idx=0):
     n = len(case["ifaces"])
     objs = {0: Interface}
     for i, bs in enumerate(case["ifaces"]):
-        objs[i + 1] = InterfaceClass("I%d" % (i + 1), tuple(objs[b] for b in bs), {}, __module__="c20")
+        # names are unique per case: equal-named interfaces of earlier cases would share the entries of
+        # Interface's weak dependents dictionary (finding F10), which matters once interfaces are re-based
+        objs[i + 1] = InterfaceClass("I%d_%d" % (i + 1, idx), tuple(objs[b] for b in bs), {}, __module__="c20")
     obj_node = n + 1
     objs[obj_node] = implementedBy(object)
     classes = {obj_node: object}
@@ -75,19 +77,30 @@ def run_case(case):
         nid.setdefault(id(objs[k]), k)
     # equal-but-distinct interfaces: same __name__ and __module__ as I<i>, another object (no bases, so
     # nothing is subscribed anywhere)
-    twins = [InterfaceClass("I%d" % i, (), {}, __module__="c20") for i in range(1, n + 1)]
+    twins = [InterfaceClass("I%d_%d" % (i, idx), (), {}, __module__="c20") for i in range(1, n + 1)]
 
     def ids(it):
         return [nid.get(id(o), UNKNOWN) for o in it]
 
-    graph = [[k, ids(objs[k].__bases__)] for k in sorted(objs)]
     ifs = list(range(0, n + 1))
 
-    for d in case["decls"]:
+    # operands are built partly before and partly after an optional re-basing of interfaces; everything
+    # is observed afterwards and must follow the CURRENT hierarchy
+    rebase = case.get("rebase", [])
+    rebase_at = case.get("rebase_at", 0) if rebase else None
+    for k, d in enumerate(case["decls"]):
+        if k == rebase_at:
+            for node, bs in rebase:
+                objs[node].__bases__ = tuple(objs[b] for b in bs)
+            rebase_at = None
         if "spec" in d:
             decls.append(objs[d["spec"]])
         else:
             decls.append(Declaration(*[build(x) for x in d["args"]]))
+    if rebase_at is not None:
+        for node, bs in rebase:
+            objs[node].__bases__ = tuple(objs[b] for b in bs)
+    graph = [[k, ids(objs[k].__bases__)] for k in sorted(objs)]
 
     def ob(f):
         try:
@@ -152,9 +165,9 @@ def run_case(case):
 def main():
     payload = _boot.read_payload()
     res = []
-    for case in payload["cases"]:
+    for idx, case in enumerate(payload["cases"]):
         try:
-            res.append(run_case(case))
+            res.append(run_case(case, idx))
         except Exception as e:
             res.append({"exc": type(e).__name__, "msg": str(e)[:200]})
     _boot.write_result({"obs": res})
